@@ -83,6 +83,11 @@ func runC20(r *vfw.Run) {
 		}
 	}
 	annDone := 0
+	// burst mode: all peers announce at the same instant, so that the announcements interleave at the manager's locks
+	burst := t.Choose("c20.burst", 3) == 0
+	if burst {
+		r.Fault("announcement_burst")
+	}
 	for p := 0; p < npeers; p++ {
 		name := fmt.Sprintf("peer%d", p)
 		serves[name] = map[common.Hash128]bool{}
@@ -98,10 +103,13 @@ func runC20(r *vfw.Run) {
 			}
 		}
 		start := time.Duration(t.Choose("c20.start", 4000)) * time.Millisecond
+		if burst {
+			start = time.Duration(t.Choose("c20.burststart", 2)) * 500 * time.Millisecond
+		}
 		w.SpawnAfter(start, ctx, name, func() {
 			defer func() { annDone++ }()
 			for _, h := range plan {
-				if t.Choose("c20.gap", 2) == 0 {
+				if !burst && t.Choose("c20.gap", 2) == 0 {
 					w.Sleep(time.Duration(t.Choose("c20.gapms", 1500)) * time.Millisecond)
 				}
 				announcers[h] = append(announcers[h], ann{w.Elapsed(), name})
